@@ -261,6 +261,11 @@ def run(ctx, out, tier):
     from rules.C12 import check_walkfiles
     check_walkfiles(ctx, out, rule="C20.walkfiles")
     shared.check_scan_state(ctx, out, "C20.scanstate")
+    # which task finishes first must not decide what is reported: every joined result reaches the diagnostics and
+    # the join loop ends only on exhaustion or Err (shared with C18 / C19)
+    from rules import asyncval
+    asyncval.check_collector(ctx, out, "C20lua", "check-lua")
+    asyncval.check_collector(ctx, out, "C20ai", "check-ai")
     return meta()
 
 
